@@ -279,6 +279,7 @@ class Server(object):
         self.delayed_results = {}        # phone -> [(upload dict, result stanza)]
         self.ask_keys_ids = 0
         self.auto_success = True
+        self.skmsg_first = False             # group messages are relayed with the sender-key <enc> before the pairwise one
         self.reduced_success_once = set()    # phones whose next <success> lacks the attributes in reduced_success_drop
         self.reduced_success_drop = ("creation",)
         self.low_keys = 0                # ask an account for more keys when fewer than this many are left
@@ -466,6 +467,10 @@ class Server(object):
                 if p in per:
                     kids.append(per[p])
                 kids.extend(encs)
+                if self.skmsg_first and len(kids) > 1:
+                    # (the order of the <enc> siblings carries nothing: this server puts the sender-key part first)
+                    kids.reverse()
+                    self.world.count("srv_enc_children_reversed")
                 kids.extend(plain)
                 self.route_message(client, mid, p, tup("message", dict(base, **{"from": to, "participant": client.jid}), kids), "group")
         else:
